@@ -1,6 +1,6 @@
 #!/bin/bash
 # For each fix: commit in /repo: revert it in the working tree, run the checks of the properties it is recorded under, restore.
-cd /verif
+cd "$(dirname "$0")/.."
 python3 - <<'PY' > /tmp/fixlist.txt
 import json
 kf=json.load(open('/verif/known_findings.json'))
